@@ -6,11 +6,12 @@
 # files. Used only while preparing "fix:" commits; not part of any check.
 set -euo pipefail
 export GOFLAGS=-mod=mod GOPROXY=off GOSUMDB=off GOTOOLCHAIN=local
+R=${REPO:-/repo}
 T=$(mktemp -d /tmp/regen-XXXXXX)
 trap 'rm -rf "$T"' EXIT
 mkdir -p "$T/old" "$T/new"
-git -C /repo archive HEAD | tar -x -C "$T/old"
-rsync -a --exclude .git /repo/ "$T/new/"
+git -C "$R" archive HEAD | tar -x -C "$T/old"
+rsync -a --exclude .git "$R/" "$T/new/"
 for v in old new; do
   rsync -a /verif/harness/ "$T/$v/zzverif/"
   (cd "$T/$v" && go build -o "$T/$v.plugin" ./cmd/protoc-gen-go-pulsar && go build -o "$T/$v.gen" ./zzverif/cmd/gen)
@@ -19,6 +20,6 @@ done
 (cd "$T" && diff -ruN old.out new.out > "$T/regen.diff" || true)
 echo "regen diff: $(grep -c '^[-+][^-+]' "$T/regen.diff" || true) changed lines"
 if [ -s "$T/regen.diff" ]; then
-  (cd /repo && patch -p1 --no-backup-if-mismatch -F 3 < "$T/regen.diff")
-  (cd /repo && gofmt -l testpb internal/testprotos/test3 || true)
+  (cd "$R" && patch -p1 --no-backup-if-mismatch -F 3 < "$T/regen.diff")
+  (cd "$R" && gofmt -l testpb internal/testprotos/test3 || true)
 fi
